@@ -11,7 +11,7 @@ HAND_SEEDS = ["empty", "chain", "skip", "div", "two", "desc"]
 NOSEG_SEEDS = HAND_SEEDS + ["zero", "twodiv"]  # node id 0 is legal only without a label array
 ASSUME_COMMON = [
     "third-party behaviour (networkx, numpy, skimage.regionprops, psygnal) is trusted",
-    "bounds: <= 6 seed nodes, 4 frames, 4x6 (x2) pixel frames, alphabets of DESIGN.md 3.2",
+    "bounds: <= 8 seed nodes, 4 frames, 4x6 (x2) pixel frames, alphabets of DESIGN.md 3.2",
     "single-threaded deterministic library: no schedules or crash points to enumerate",
 ]
 
@@ -151,6 +151,8 @@ def struct_stages(tier, seg_depth_q=1, seg_depth_t=2, extra_kinds=()):
         dict(name="reloaded", worlds=["noseg-2d-reloaded", "seg-2d-reloaded"], seeds=["div", "two", "desc"],
              depth=1 if q else 2, kinds=kinds),
         dict(name="big-ids", worlds=["noseg-2d-bigids", "seg-2d-bigids"], seeds=["bigdiv"], depth=1 if q else 2, kinds=kinds),
+        dict(name="nested-divisions", worlds=["noseg-2d", "noseg-2d-given", "seg-2d"], seeds=["nested"], depth=1 if q else 2,
+             kinds=("del_node", "del_edge", "add_edge", "swap"), max_states=None if q else 1500),
         dict(name="forests", worlds=["noseg-2d-given"], seeds=forests_seeds(4 if q else 5, 3 if q else 4), depth=1, kinds=kinds),
         # constructor clause: ids computed by the constructor on every forest
         dict(name="forests-computed-ids", worlds=["noseg-2d"], seeds=forests_seeds(4 if q else 5, 3 if q else 4), depth=1,
@@ -172,8 +174,9 @@ def with_history_invariants(prop, tier, res):
     """E2: the state invariant of `prop` re-checked after every undo / redo of every call
     sequence of the C02 menus (deep undo/redo interleavings that the BFS probe does not reach)"""
     q = tier == "quick"
-    menus = [(M1, 4 if q else 6), (M1B, 4 if q else 5), (M2, 3 if q else 5), (M_DEEP, 7 if q else 8)]
-    return merge_results(res, run_e2(prop, tier, "C02", menus, inv_props=(prop,), time_budget=budget(tier, 60, 900)))
+    menus = [(M1, 4 if q else 6), (M1B, 4 if q else 5), (M2, 3 if q else 5), (M_DEEP, 7 if q else 8),
+             (M_NESTED, 4 if q else 5), (M_DEEP_LIN, 8 if q else 9), (M_LONG, 2 if q else 3)]
+    return merge_results(res, run_e2(prop, tier, "C02", menus, inv_props=(prop,), time_budget=budget(tier, 90, 900)))
 
 
 def check_c04(tier):
@@ -274,7 +277,13 @@ def check_c07(tier):
         dict(name="scaled", worlds=["seg-2d-aniso", "seg-2d-all"] if q else ["seg-2d-aniso", "seg-2d-all", "seg-3d-aniso"],
              seeds=HAND_SEEDS + ["twodiv"], depth=1 if q else 2, kinds=SEG_KINDS),
     ]
-    return run_e1("C07", tier, stages, dict(undo_probe=True), time_budget=budget(tier, 400, 2400))
+    res = run_e1("C07", tier, stages, dict(undo_probe=True), time_budget=budget(tier, 400, 2400))
+    # long undo / redo interleavings of strokes: array against the timeline, invariant after every step back or forth
+    res = merge_results(res, run_e2("C07", tier, "C02", [(M2, 4 if q else 6), (M_DEEP_SEG, 7 if q else 8)],
+                                    inv_props=("C07",), time_budget=budget(tier, 90, 900)))
+    from . import smallscope as ss
+    return merge_results(res, run_e3("C07", tier, [("c07big", "strokes that leave 0/1/2/5 pixels of a 4x3 and of a 10**5 pixel mask",
+                                                     lambda: ss.c07_big_cases(tier))], time_budget=budget(tier, 60, 600)))
 
 
 def check_c08(tier):
@@ -305,6 +314,8 @@ def check_c09(tier):
         dict(name="aniso-given", worlds=["seg-2d-aniso", "seg-2d-fd"], seeds=HAND_SEEDS + ["fix6"], depth=1 if q else 2, kinds=SEG_KINDS),
         dict(name="3d", worlds=["seg-3d"], seeds=HAND_SEEDS, depth=1 if q else 2, kinds=SEG_KINDS),
         dict(name="uint8-labels", worlds=["seg-2d-u8"], seeds=["u8ids", "div"], depth=1 if q else 2, kinds=SEG_KINDS),
+        dict(name="wide-ids", worlds=["seg-2d", "seg-2d-bigids"], seeds=["u32ids", "bigdiv"], depth=1 if q else 2, kinds=SEG_KINDS,
+             max_states=None if q else 3000),
     ]
     res = run_e1("C09", tier, stages, dict(undo_probe=True), time_budget=budget(tier, 400, 3000))
     return merge_results(res, run_e2("C09", tier, "C10", [(C09_TOGGLE, 3 if q else 4)],
@@ -424,7 +435,7 @@ M2 = dict(name="M2-seg-div", world="seg-2d", seed="div", items=[
 M_DEEP = dict(name="M-deep-chain", world="noseg-2d", seed="chain", items=[
     ("del_edge", 2, 3),                  # A
     ("add_edge", 1, 3, False),           # B: refused while 3 still has parent 2
-    ("set_attr", 1, "score", 2.5),       # C: any accepted edit
+    ("set_attr", 3, "score", 1.0000002), # C: any accepted edit (here: a change in the 7th digit of 1.0)
     UNDO, REDO,
 ])
 # refused calls interleaved with accepted ones: a refused call must not become a step of the
@@ -436,6 +447,38 @@ M_REFUSED = dict(name="M-refused-chain", world="noseg-2d", seed="chain", items=[
     ("add_edge", 3, 1, False),           # always refused (not forward in time)
     UNDO, REDO,
 ])
+# two nested levels of divisions: relabelling walks that start above them, in every order of
+# cutting / re-attaching (undo of a cut re-inserts the edge at the end of the successor list)
+M_NESTED = dict(name="M-nested-divisions", world="noseg-2d", seed="nested", items=[
+    ("del_edge", 1, 2),
+    ("del_edge", 2, 3),
+    ("del_edge", 2, 4),
+    ("del_node", 2),
+    UNDO, REDO,
+])
+# lineage-changing edits where B depends on A; A, B, undo, undo, C, undo, undo, undo needs length 8
+M_DEEP_LIN = dict(name="M-deep-lineage", world="noseg-2d", seed="iso3", items=[
+    ("add_edge", 2, 3, False),           # A
+    ("add_edge", 1, 2, False),           # B
+    ("set_attr", 3, "score", 2.5),       # C
+    UNDO,
+])
+# the same shape of history on a label array: B paints over what A created
+M_DEEP_SEG = dict(name="M-deep-seg-chain", world="seg-2d-core", seed="chain", items=[
+    ("paint", 3, [[0, 0], [4, 5]], 7, 9, False, "new7"),                   # A: new node 7 in frame 3
+    ("paint", 3, [[0, 0, 1], [4, 5, 5]], 8, 10, False, "over7"),           # B: node 8 swallows 7 (or is new)
+    ("paint", 0, [[0], [0]], 0, 9, False, "part1"),                        # C
+    UNDO,
+])
+# relabelling walks over 1100 nodes (deeper than the recursion limit); the invariants are
+# evaluated after every call because no BFS stage visits this world
+M_LONG = dict(name="M-long-chain", world="noseg-2d-long", seed="long", inv_every_call=True, items=[
+    ("del_edge", 3, 4),
+    ("del_edge", 1098, 1099),
+    ("del_node", 2),
+    ("add_edge", 1, 3, False),
+    UNDO, REDO,
+])
 M3 = dict(name="M3-full-chain", world="noseg-2d", seed="chain", full_alphabet=True,
           kinds=("del_node", "del_edge", "add_edge", "add_node", "swap"))
 M3S = dict(name="M3-full-seg-chain", world="seg-2d-core", seed="chain", full_alphabet=True,
@@ -445,7 +488,8 @@ M3S = dict(name="M3-full-seg-chain", world="seg-2d-core", seed="chain", full_alp
 def check_c02(tier):
     q = tier == "quick"
     menus = [(M1, 5 if q else 7), (M1B, 5 if q else 6), (M2, 4 if q else 6), (M3, 2 if q else 3), (M3S, 2),
-             (M_DEEP, 7 if q else 9), (M_REFUSED, 6 if q else 8)]
+             (M_DEEP, 7 if q else 9), (M_REFUSED, 6 if q else 8), (M_NESTED, 4 if q else 6), (M_DEEP_LIN, 8 if q else 9),
+             (M_DEEP_SEG, 7 if q else 8), (M_LONG, 2 if q else 3)]
     return run_e2("C02", tier, "C02", menus, time_budget=budget(tier, 400, 3000),
                   inv_props=("C03", "C04", "C05", "C06"))
 
@@ -520,7 +564,7 @@ def run_e3(prop, tier, parts, assumptions=None, time_budget=None):
     for name, label, factory in parts:
         print(f"[{prop}] part {label}")
         # file-writing cases cost 0.1-0.5 s each: hand them out in small chunks
-        chunk = 6 if name in ("c12g", "c15") else 200
+        chunk = 6 if name in ("c12g", "c15") else (2 if name == "c07big" else 200)
         r = smallscope.run_cases(name, factory(), chunk=chunk, deadline=deadline)
         for v in r["violations"]:
             v["check_fn"] = name
@@ -668,6 +712,10 @@ def check_c14(tier):
         dict(name="big ids", worlds=["seg-2d-bigids", "noseg-2d-bigids"], seeds=["bigdiv"], depth=0 if q else 1, kinds=SEG_KINDS,
              formats=["csv", "internal", "geff"]),
     ]
+    stages.append(dict(name="65-frame movie", worlds=["seg-2d-movie"], seeds=["movie"], depth=0, kinds=SEG_KINDS,
+                       formats=["csv", "internal", "geff"]))
+    stages.append(dict(name="ids above 2**16", worlds=["seg-2d"], seeds=["u32ids"], depth=0, kinds=SEG_KINDS,
+                       formats=["csv", "internal", "geff"]))
     if q:
         stages.append(dict(name="geff seg edited", worlds=["seg-2d"], seeds=["desc"], depth=1, kinds=("del_node", "paint", "add_edge"),
                            formats=["geff"], max_states=120))
@@ -687,6 +735,7 @@ def check_c16(tier):
     if q:
         stages.append(dict(name="seg edited", worlds=["seg-2d"], seeds=["desc"], depth=1, kinds=("del_node", "paint", "add_edge")))
     stages.append(dict(name="big ids", worlds=["seg-2d-bigids", "noseg-2d-bigids"], seeds=["bigdiv"], depth=0 if q else 1, kinds=SEG_KINDS))
+    stages.append(dict(name="65-frame movie", worlds=["seg-2d-movie"], seeds=["movie"], depth=0, kinds=SEG_KINDS))
     return run_stateset("C16", tier, stages, "readonly_state", time_budget=budget(tier, 200, 3000))
 
 
